@@ -444,6 +444,15 @@ pub fn exhaustive_cases() -> Vec<Case> {
                 keep_mtime: false,
             });
         }
+        // the file emptied, and cut to its first byte
+        for o in [0usize, 1] {
+            all.push(Tamper {
+                file,
+                kind: Kind::Truncate,
+                offset: Offset::Abs(o),
+                keep_mtime: o == 0,
+            });
+        }
     }
     all.chunks(40)
         .map(|c| Case {
